@@ -586,7 +586,7 @@ Definition poll_result (g : cfg) (s : st) (c : nat) (x : closer) : st :=
     if waits s then
       spawn_drop (negb (closer_release_wakes g))
                  (set_closers s (upd (closers s) c (fun _ => mk_closer CGone (cf x) (winner x))))
-    else poll_tail s c x true (wwoken s) true
+    else poll_tail s c x true false true
   | CPending => poll_tail s c x (waits s) false (winner x)
   | CClosing => set_wwoken s false
   | CClosed => set_wwoken (set_closers s (upd (closers s) c (fun _ => mk_closer CDone (cf x) (winner x)))) false
@@ -793,11 +793,10 @@ Proof.
               Inv g (finish_drops g (poll_tail s c x wt ww' wi)) ->
               WInv (finish_drops g (poll_tail s c x wt ww' wi)) ->
               np x = 0 \/ ww' = false ->
-              (1 <= sumf np (closers s) -> np x = 0 -> ww' = wwoken s) ->
               UInv g (finish_drops g (poll_tail s c x wt ww' wi))).
     { intros wt ww' wi. unfold poll_tail. destruct (strong s =? 1) eqn:E1.
-      - rewrite finish_drops_idle by exact Hd. intros A B _ _. apply uinv_strong0; auto.
-      - rewrite finish_drops_idle by exact Hd. intros A B Hx0 Hww. apply Nat.eqb_neq in E1.
+      - rewrite finish_drops_idle by exact Hd. intros A B _. apply uinv_strong0; auto.
+      - rewrite finish_drops_idle by exact Hd. intros A B Hx0. apply Nat.eqb_neq in E1.
         constructor; auto; cbn [strong waker wwoken closers]; intros; try (left; reflexivity); try lia. }
     destruct (pc x) eqn:Hpc; try discriminate.
     + (* CUnpolled *)
@@ -811,7 +810,6 @@ Proof.
         pose proof (sumf_upd np (fun _ => mk_closer CGone (cf x) (winner x)) _ _ _ Hx) as Hs.
         unfold np in *. rewrite Hpc in Hs. cbn in Hs. lia.
       * apply Htail; auto.
-        -- left. unfold np. rewrite Hpc. reflexivity.
     + (* CCreated *)
       destruct (waits s) eqn:Ewt.
       * rewrite Hflag in *. cbn [negb] in *.
@@ -823,9 +821,8 @@ Proof.
         pose proof (sumf_upd np (fun _ => mk_closer CGone (cf x) (winner x)) _ _ _ Hx) as Hs.
         unfold np in *. rewrite Hpc in Hs. cbn in Hs. lia.
       * apply Htail; auto.
-        -- left. unfold np. rewrite Hpc. reflexivity.
     + (* CPending *)
-      apply Htail; auto. intros _ E. unfold np in E. rewrite Hpc in E. discriminate.
+      apply Htail; auto.
     + (* CClosing *)
       rewrite finish_drops_idle in * by exact Hd.
       assert (strong s = 0).
@@ -1400,4 +1397,220 @@ Proof.
     destruct (strong s =? 1); inversion H; subst s'; [|auto].
     cbn [closers waker wwoken strong]. split; [|auto].
     intros c Hp. eapply pend_back_app; [|exact Hp]. cbn. discriminate.
+Qed.
+
+Lemma pc_at_upd_other s cs c0 f c :
+  c <> c0 -> closers s = cs -> option_map pc (nth_error (upd cs c0 f) c) = option_map pc (nth_error cs c).
+Proof. intros Hne _. rewrite nth_upd_other by exact Hne. reflexivity. Qed.
+
+(* what one poll (macro step) of closer c0 does *)
+Lemma upoll_effect g s c0 s' :
+  closer_release_wakes g = true -> UInv g s -> ustep g s (UPoll c0) = Some s' ->
+  (forall c, c <> c0 -> pc_at s' c = Some CPending -> pc_at s c = Some CPending) /\
+  (pc_at s' c0 = Some CPending -> waker s' = true /\ wwoken s' = false) /\
+  (pc_at s' c0 <> Some CPending ->
+     (waker s' = true -> waker s = true) /\
+     (wwoken s' = true -> wwoken s = true \/ (waker s = true /\ waker s' = false) \/ strong s' = 0)).
+Proof.
+  intros Hflag HU H.
+  pose proof HU as [HI HW Hd Hreg Hwok].
+  pose proof HI as [Hc H0 H1 Hcl Hle Hge Hf Hgo].
+  rewrite ustep_poll_eq in H. destruct (pollable s c0) eqn:Hp; [|discriminate].
+  assert (Es : finish_drops g (poll_run g 6 c0 s) = s') by (clear - H; congruence).
+  clear H. subst s'.
+  pose proof Hp as Hp'. unfold pollable in Hp'.
+  destruct (nth_error (closers s) c0) as [x|] eqn:Hx; [|discriminate].
+  rewrite (poll_run_spec g s c0 x Hx Hp).
+  unfold pc_at.
+  assert (Hoth : forall F c, c <> c0 ->
+            option_map pc (nth_error (upd (closers s) c0 F) c) = Some CPending ->
+            option_map pc (nth_error (closers s) c) = Some CPending).
+  { intros F c Hne E. rewrite nth_upd_other in E by exact Hne. exact E. }
+  assert (Hat : forall F, nth_error (upd (closers s) c0 F) c0 = Some (F x)).
+  { intros F. apply nth_upd_same. exact Hx. }
+  assert (Htail : forall wt wi,
+     let r := finish_drops g (poll_tail s c0 x wt false wi) in
+     (forall c, c <> c0 -> option_map pc (nth_error (closers r) c) = Some CPending ->
+                option_map pc (nth_error (closers s) c) = Some CPending) /\
+     (option_map pc (nth_error (closers r) c0) = Some CPending -> waker r = true /\ wwoken r = false) /\
+     (option_map pc (nth_error (closers r) c0) <> Some CPending ->
+        (waker r = true -> waker s = true) /\
+        (wwoken r = true -> wwoken s = true \/ (waker s = true /\ waker r = false) \/ strong r = 0))).
+  { intros wt wi. unfold poll_tail. destruct (strong s =? 1) eqn:E1; cbn zeta;
+      rewrite finish_drops_idle by exact Hd; cbn [closers waker wwoken strong].
+    - split; [intros c Hne; apply Hoth; exact Hne|]. rewrite Hat. cbn [option_map pc]. split.
+      + destruct (cf x); discriminate.
+      + intros _. split; [auto|]. intros _. right; right; reflexivity.
+    - split; [intros c Hne; apply Hoth; exact Hne|]. rewrite Hat. cbn [option_map pc]. split.
+      + intros _. split; reflexivity.
+      + intros A. exfalso. apply A. reflexivity. }
+  unfold poll_result.
+  destruct (pc x) eqn:Hpc; try discriminate.
+  - (* CUnpolled *)
+    destruct (waits s) eqn:Ewt; [|apply Htail].
+    rewrite Hflag. cbn [negb].
+    assert (Hs1 : step g s (LPoll c0) = Some (spawn_drop false (set_closers s
+              (upd (closers s) c0 (fun _ => mk_closer CGone (cf x) (winner x)))))).
+    { cbn [step]. unfold poll_step. rewrite Hx, Hpc. unfold first_poll. rewrite Ewt, Hflag. cbn [negb].
+      rewrite (upd_const _ _ _ _ Hx). reflexivity. }
+    pose proof (step_inv g s _ _ HI Hs1) as HI1.
+    destruct (finish_flags g _ (droppers s) HI1 eq_refl) as (A & B & C & D).
+    rewrite A. cbn [closers waker wwoken spawn_drop set_droppers set_closers] in *.
+    split; [intros c Hne; apply Hoth; exact Hne|]. rewrite Hat. cbn [option_map pc]. split; [discriminate|].
+    intros _. split; [exact C|]. intros E. destruct (D E) as [X|X]; auto.
+  - (* CCreated *)
+    destruct (waits s) eqn:Ewt; [|apply Htail].
+    rewrite Hflag. cbn [negb].
+    assert (Hs1 : step g s (LPoll c0) = Some (spawn_drop false (set_closers s
+              (upd (closers s) c0 (fun _ => mk_closer CGone (cf x) (winner x)))))).
+    { cbn [step]. unfold poll_step. rewrite Hx, Hpc. unfold first_poll. rewrite Ewt, Hflag. cbn [negb].
+      rewrite (upd_const _ _ _ _ Hx). reflexivity. }
+    pose proof (step_inv g s _ _ HI Hs1) as HI1.
+    destruct (finish_flags g _ (droppers s) HI1 eq_refl) as (A & B & C & D).
+    rewrite A. cbn [closers waker wwoken spawn_drop set_droppers set_closers] in *.
+    split; [intros c Hne; apply Hoth; exact Hne|]. rewrite Hat. cbn [option_map pc]. split; [discriminate|].
+    intros _. split; [exact C|]. intros E. destruct (D E) as [X|X]; auto.
+  - (* CPending *) apply Htail.
+  - (* CClosing *)
+    rewrite finish_drops_idle by exact Hd. cbn [closers waker wwoken strong set_wwoken].
+    split; [auto|]. rewrite Hx. cbn [option_map]. rewrite Hpc. split; [discriminate|].
+    intros _. split; [auto|discriminate].
+  - (* CClosed *)
+    rewrite finish_drops_idle by exact Hd. cbn [closers waker wwoken strong set_wwoken set_closers].
+    split; [intros c Hne; apply Hoth; exact Hne|]. rewrite Hat. cbn [option_map pc]. split; [discriminate|].
+    intros _. split; [auto|discriminate].
+Qed.
+
+Lemma two_waiting (l : list closer) c1 c2 x1 x2 :
+  c1 <> c2 -> nth_error l c1 = Some x1 -> nth_error l c2 = Some x2 ->
+  wp x1 = 1 -> wp x2 = 1 -> 2 <= sumf wp l.
+Proof.
+  revert c1 c2. induction l as [|a l IH]; intros c1 c2 Hne H1 H2 W1 W2.
+  - destruct c1; discriminate.
+  - destruct c1 as [|c1], c2 as [|c2]; cbn [nth_error sumf] in *.
+    + congruence.
+    + inversion H1; subst a. pose proof (sumf_nth_le wp _ _ _ H2). lia.
+    + inversion H2; subst a. pose proof (sumf_nth_le wp _ _ _ H1). lia.
+    + assert (c1 <> c2) by congruence. specialize (IH c1 c2 H H1 H2 W1 W2). lia.
+Qed.
+
+Record JInv (g : cfg) (ws : wst) : Prop := mkJ {
+  j_u : UInv g (base ws);
+  j_slot : forall c, pc_at (base ws) c = Some CPending -> waker (base ws) = true -> slot ws = (c, lgen ws c);
+  j_wok : forall c, pc_at (base ws) c = Some CPending -> wwoken (base ws) = true -> wok ws = (c, lgen ws c)
+}.
+
+Lemma jinv_init g : JInv g winit.
+Proof. constructor; [apply uinv_init|cbn; discriminate|cbn; discriminate]. Qed.
+
+Lemma pending_strong g s c : Inv g s -> pc_at s c = Some CPending -> 1 <= strong s.
+Proof.
+  intros HI Hp. unfold pc_at in Hp. destruct (nth_error (closers s) c) as [x|] eqn:Hx; [|discriminate].
+  cbn in Hp. pose proof (sumf_nth_le hc _ _ _ Hx) as Hle. unfold hc in Hle at 1.
+  assert (pc x = CPending) by congruence. rewrite H in Hle. cbn in Hle.
+  destruct HI as [Hc _ _ _ _ _ _ _]. lia.
+Qed.
+
+Theorem wustep_jinv g ws l ws' :
+  closer_release_wakes g = true -> JInv g ws -> wustep g ws l = Some ws' -> JInv g ws'.
+Proof.
+  intros Hflag [HU J1 J2] H. destruct l as [ul|c]; cbn [wustep] in H.
+  2:{ destruct (pc_at (base ws) c) as [[]|]; try discriminate; inversion H; subst ws';
+        constructor; cbn [base slot wok lgen]; auto. }
+  destruct (ustep g (base ws) ul) as [b'|] eqn:E; [|discriminate].
+  pose proof (ustep_uinv g _ _ _ Hflag HU E) as HU'.
+  pose proof HU' as [HI' HW' _ _ _].
+  inversion H; subst ws'; clear H.
+  assert (Hnop : forall c, pc_at b' c = Some CPending -> strong b' = 0 -> False).
+  { intros c Hp E0. pose proof (pending_strong g b' c HI' Hp). lia. }
+  destruct (match ul with UPoll c => Some c | _ => None end) as [c0|] eqn:Hul.
+  - (* a poll *)
+    destruct ul; try discriminate. inversion Hul; subst c0.
+    destruct (upoll_effect g _ _ _ Hflag HU E) as (Q1 & Q2 & Q3).
+    constructor; cbn [base slot wok lgen]; [exact HU'| |].
+    + intros c0 Hp Hw. destruct (Nat.eq_dec c0 c) as [->|Hne].
+      * rewrite Hp. unfold fset. rewrite Nat.eqb_refl. reflexivity.
+      * destruct (pc_at b' c) as [[]|] eqn:Hc;
+          try (destruct Q3 as [Q3a Q3b]; [discriminate|]; unfold fset;
+               rewrite (proj2 (Nat.eqb_neq c0 c) Hne); apply J1; [apply Q1; assumption|auto]).
+        exfalso. unfold pc_at in Hp, Hc.
+        destruct (nth_error (closers b') c0) as [x0|] eqn:E0; [|discriminate].
+        destruct (nth_error (closers b') c) as [x1|] eqn:E1; [|discriminate].
+        cbn in Hp, Hc. assert (wp x0 = 1) by (unfold wp; replace (pc x0) with CPending by congruence; reflexivity).
+        assert (wp x1 = 1) by (unfold wp; replace (pc x1) with CPending by congruence; reflexivity).
+        pose proof (two_waiting _ _ _ _ _ Hne E0 E1 H H0). unfold WInv in HW'. destruct (waits b'); lia.
+    + intros c0 Hp Hw. destruct (Nat.eq_dec c0 c) as [->|Hne].
+      * destruct (Q2 Hp) as [_ X]. congruence.
+      * destruct (pc_at b' c) as [[]|] eqn:Hc;
+          try (destruct Q3 as [Q3a Q3b]; [discriminate|]; unfold fset;
+               rewrite (proj2 (Nat.eqb_neq c0 c) Hne);
+               destruct (Q3b Hw) as [X|[[X Y]|X]];
+               [ rewrite (J2 c0 (Q1 c0 Hne Hp) X);
+                 destruct (waker (base ws) && negb (waker b')) eqn:Ew;
+                 [apply andb_true_iff in Ew; destruct Ew as [Ew _]; rewrite <- (J2 c0 (Q1 c0 Hne Hp) X);
+                  rewrite (J1 c0 (Q1 c0 Hne Hp) Ew); symmetry; apply J2; [apply Q1; assumption|exact X]
+                 |reflexivity]
+               | rewrite X, Y; cbn [andb negb]; apply J1; [apply Q1; assumption|exact X]
+               | exfalso; eapply Hnop; eauto ]).
+        destruct (Q2 eq_refl) as [_ X]. congruence.
+  - (* not a poll *)
+    assert (Hnp : forall c, ul <> UPoll c) by (intros c Ec; subst ul; discriminate).
+    destruct (ustep_effect g _ _ _ Hflag HU E Hnp) as (F1 & F2 & F3).
+    destruct HU as [HI HWb Hdb Hregb Hwokb].
+    assert (Hgone0 : forall c0 c, pc_at (base ws) c0 = Some CClosing -> pc_at b' c = Some CPending -> False).
+    { intros c0 c Ec Hp.
+      assert (strong (base ws) = 0).
+      { destruct HI as [_ _ _ _ _ _ _ Hgo]. apply Hgo. unfold pc_at in Ec.
+        destruct (nth_error (closers (base ws)) c0) as [x|] eqn:Hx; [|discriminate].
+        pose proof (sumf_nth_le gp _ _ _ Hx) as Hg. unfold gp in Hg at 1. cbn in Ec.
+        replace (pc x) with CClosing in Hg by congruence. exact Hg. }
+      pose proof (pending_strong g (base ws) c HI (F1 c Hp)). lia. }
+    destruct ul; try discriminate;
+      (constructor; cbn [base slot wok lgen]; [exact HU'| |];
+       [ intros c' Hp Hw; apply J1; auto
+       | intros c' Hp Hw;
+         destruct (F3 Hw) as [X|[[X Y]|X]];
+         [ destruct (waker (base ws) && negb (waker b')) eqn:Ew;
+           [ apply andb_true_iff in Ew; destruct Ew as [Ew _]; apply J1; auto
+           | try (apply J2; auto; fail);
+             match goal with
+             | |- context [pc_at (base ws) ?c0] =>
+                 destruct (pc_at (base ws) c0) as [[]|] eqn:Ec; try (apply J2; auto; fail);
+                 exfalso; eapply Hgone0; eauto
+             end ]
+         | rewrite X, Y; cbn [andb negb]; apply J1; auto
+         | exfalso; eapply Hnop; eauto ] ]).
+Qed.
+
+Lemma wusteps_jinv g ls : forall ws ws',
+  closer_release_wakes g = true -> JInv g ws -> wusteps g ws ls = Some ws' -> JInv g ws'.
+Proof.
+  induction ls as [|l r IH]; cbn [wusteps]; intros ws ws' Hf HJ H.
+  - inversion H; subst; exact HJ.
+  - destruct (wustep g ws l) as [w1|] eqn:E; [|discriminate]. eapply IH; [exact Hf| |exact H].
+    eapply wustep_jinv; eauto.
+Qed.
+
+(* after any sequence of polls under changing wakers, the release that leaves a
+   Pending closer as the only owner has woken the waker of its latest poll *)
+Theorem latest_waker_woken g ls ws c :
+  closer_release_wakes g = true -> wusteps g winit ls = Some ws ->
+  pc_at (base ws) c = Some CPending -> strong (base ws) = 1 ->
+  wwoken (base ws) = true /\ wok ws = (c, lgen ws c).
+Proof.
+  intros Hf H Hp E. destruct (wusteps_jinv g ls _ _ Hf (jinv_init g) H) as [HU J1 J2].
+  assert (Hw : wwoken (base ws) = true).
+  { destruct HU as [_ _ _ _ Hwok]. apply Hwok; [|exact E].
+    unfold pc_at in Hp. destruct (nth_error (closers (base ws)) c) as [x|] eqn:Hx; [|discriminate].
+    pose proof (sumf_nth_le np _ _ _ Hx) as Hle. unfold np in Hle at 1. cbn in Hp.
+    replace (pc x) with CPending in Hle by congruence. exact Hle. }
+  split; [exact Hw|]. apply J2; assumption.
+Qed.
+
+(* the generation recorded for a closer is the waker of its latest poll *)
+Lemma wustep_poll_lgen g ws c ws' :
+  wustep g ws (WU (UPoll c)) = Some ws' -> lgen ws' c = gen ws c /\ gen ws' = gen ws.
+Proof.
+  cbn [wustep]. destruct (ustep g (base ws) (UPoll c)); [|discriminate]. intros H. inversion H; subst ws'.
+  cbn [lgen gen]. unfold fset. rewrite Nat.eqb_refl. auto.
 Qed.
